@@ -45,6 +45,8 @@ class Opts:
         self.steps = [0, 1, 2, 3]  # allowed numbers of profiler steps
         self.faults = True
         self.memcpy = True
+        self.memcpy_weight = 2  # relative to 6 for kernel launches
+        self.memcpy_names = None  # restrict the copy kernel names (several full names per copy type)
         self.allow_zero_delay = True
         self.allow_zero_kdur = True
         self.allow_zero_call = True  # zero-duration runtime calls
@@ -80,12 +82,12 @@ DUR = [1, 1, 2, 3, 5, 8]
 
 @st.composite
 def leaf_launch(draw, o: Opts, streams: List[int]) -> Dict[str, Any]:
-    kind = pick(draw, ["kernel"] * 6 + (["memcpy", "memcpy", "memset"] if o.memcpy else []))
+    kind = pick(draw, ["kernel"] * 6 + (["memcpy"] * o.memcpy_weight + ["memset"] if o.memcpy else []))
     if kind == "kernel":
         name = pick(draw, o.launch_names)
         kname = pick(draw, o.kernel_names or (vocab.COMP_KERNELS + vocab.COMM_KERNELS))
     elif kind == "memcpy":
-        name, kname = vocab.MEMCPY_LAUNCH, pick(draw, vocab.MEMCPY_KERNELS)
+        name, kname = vocab.MEMCPY_LAUNCH, pick(draw, o.memcpy_names or vocab.MEMCPY_KERNELS)
     else:
         name, kname = vocab.MEMSET_LAUNCH, pick(draw, vocab.MEMSET_KERNELS)
     fault = "none"
